@@ -288,6 +288,17 @@ stage("comb", params=lambda W: {"k": W.pick("k", ["fb", "tau", "ff"]),
   (lambda P, i, p: P.lf.comb[p["k"]](p["d"], .5 if p["k"] != "tau"
                                      else 20.)(i[0]),
    lambda i, p: M.m_each(i)))
+# long delays (comb-like filters with the nearest tap 16..40 samples away):
+# still one input item per output item
+stage("long_delay_filter", params=lambda W: {
+  "k": W.pick("k", ["delay", "fb", "ff", "tau", "fir2"]),
+  "d": W.pick("d", [16, 17, 24, 33, 40])})(
+  (lambda P, i, p: (P.lf.z ** -p["d"] if p["k"] == "delay" else
+                    1 + .5 * P.lf.z ** -p["d"] + .25 * P.lf.z ** -(p["d"] + 3)
+                    if p["k"] == "fir2" else
+                    P.lf.comb[p["k"]](p["d"], .5 if p["k"] != "tau"
+                                      else 200.))(i[0]),
+   lambda i, p: M.m_each(i)))
 stage("resonator", params=lambda W: {"k": W.pick("k", [
   "poles_exp", "freq_poles_exp", "z_exp", "freq_z_exp"])})(
   (lambda P, i, p: P.lf.resonator[p["k"]](.4, .05)(i[0]),
